@@ -63,7 +63,7 @@ CHECKS = {
          "C18.AtomicObj.linearizable/lin_in_interval, register, load_zero_before_store, load_latest, swap_returns_previous, cas_iff_equal, pool_no_double, pool_get_source, pool_get_result, pool_linearizable, pool_race_free, gen_pool_no_plain_stores, gen_pool_race_free (plain stores to receiver state in Get/Put regenerated from pool.go every run). Tie: native histories judged for linearizability by the Lean driver; the same scenarios under the Go race detector (a report is a violation).",
          "§8 C18"),
  "C19": ("proofs (Lean 4): queued receivers equal take/drop for every capacity/content/closed/limit; send_iff/recv_iff over a channel transition system with arbitrary environment; outcome-set acceptance of timed scenarios",
-         "C19.recvQueued/recvQueuedFull (exact), send_iff, recv_iff, recv_closed_drained, nonpositive_timeout_blocks (all schedules of helper, peer, timer, cancellation). Tie: queued receivers exhaustively (capacity <= 5 x fill x closed x limit <= 7) against model and specification; timed helpers: the real outcome must be in the outcome set the Lean scenario system allows and satisfy conservation.",
+         "C19.recvQueued/recvQueuedFull (exact), send_iff, recv_iff, recv_closed_drained, nonpositive_timeout_blocks (all schedules of helper, peer, timer, cancellation); several goroutines draining one channel with RecvQueued/RecvQueuedFull, every interleaving of their loop iterations (Model.RecvQueuedConc): recvQueued_conc_conservation (the values received plus those left are exactly the queued ones, each received by one goroutine, each list in queue order), recvQueued_conc_limit, recvQueued_conc_early_stop (a goroutine that returns short of its limit saw the channel empty, and it stays empty), recvQueued_conc_predicate_sound (the predicate the judge applies to real concurrent runs accepts every final state of the model). Tie: queued receivers exhaustively (capacity <= 5 x fill x closed x limit <= 7) against model and specification; timed helpers: the real outcome must be in the outcome set the Lean scenario system allows and satisfy conservation.",
          "§8 C19"),
  "C20": ("proof (Lean 4) about BitVec kernels regenerated from math.go/util.go per integer width: Digits10 ladder, DigitsSign10, Abs, Clamp, Clamp01, Compare, Less; folds for Min/Max/Sum/Product",
          "C20.digits10_T/digitsSign10_T (all 8 integer types, signed minima included) are proved about Gen.Math.* regenerated from the Go AST on every run via one ladder lemma; abs/clamp/clamp01/compare/less likewise; min/max/sum/product/coal/tern about the model. Tie: all 8-bit values, boundary-dense 16/32/64-bit samples, pairs/triples.",
